@@ -39,7 +39,16 @@ class Agent:
     def execute(self):
         prepare = getattr(self._job, 'prepare', None)
         if prepare is not None:
-            prepare()
+            try:
+                prepare()
+            except Exception as ex:
+                # A job that cannot even get ready is over. It is reported as
+                # done, like one that fails later, so that the next job gets
+                # its turn and the caller is not bothered.
+                logging.error(
+                    'Job {} could not start: {}'.format(self._name, ex))
+                self._callback(self)
+                return self
         self._thread = threading.Thread(target=self._execute_and_call)
         self._thread.start()
         return self
